@@ -99,7 +99,8 @@ def gen_case(seed, idx):
     return {"idx": idx, "world": w, "split": k, "zsplit": zsplit, "clash": clash, "own": own, "history": hist,
             "b_refs": rng.random() < 0.8, "url_trailing_slash": rng.random() < 0.5,
             "local_abs": rng.random() < 0.3, "b_cwd": rng.choice(["proj", "proj", "parent"]),
-            "label": rng.choice(["a", "a", "remote", "mpi", "omp_lib", "iso_c_binding", "a_docs"])}
+            "label": rng.choice(["a", "a", "remote", "mpi", "omp_lib", "iso_c_binding", "a_docs"]),
+            "second_external": rng.choice([None, None, "missing_local", "unreachable_remote", "garbage_local"])}
 
 
 def a_exports(case):
@@ -588,6 +589,18 @@ def evaluate(case, seed, workdir, history=None):
                     net = {"routes": [{"prefix": URL, "dir": os.path.join(root, "pub")}]}
                     if armed:
                         net["fault"] = {"kind": armed}
+            if op == "buildB" and case.get("second_external"):
+                # a second external project that cannot be used: it must cost nothing but its own links
+                se = case["second_external"]
+                second = {"missing_local": "other = ../no_such_project/doc", "unreachable_remote": "other = https://unreachable.example/doc",
+                          "garbage_local": "other = ../garbage"}[se]
+                if se == "garbage_local":
+                    os.makedirs(os.path.join(root, "garbage"), exist_ok=True)
+                    with open(os.path.join(root, "garbage", "modules.json"), "w") as f:
+                        f.write('{"modules": [{"name": 3}]}')
+                o["external"] = [second, o["external"]] if rng.random() < 0.5 else [o["external"], second]
+                if net is None:
+                    net = {"routes": []}
             r = run_ford(root, "B", o, bbody, wk, "B%d" % step, net=net, clock_seed=step,
                          from_parent=(case.get("b_cwd") == "parent"))
             out["n"] += 1
@@ -684,6 +697,10 @@ def candidates(case):
         c = copy.deepcopy(case)
         c["local_abs"] = False
         yield "relative local path", c
+    if case.get("second_external"):
+        c = copy.deepcopy(case)
+        c["second_external"] = None
+        yield "no second external", c
     if case.get("b_cwd") == "parent":
         c = copy.deepcopy(case)
         c["b_cwd"] = "proj"
